@@ -627,3 +627,63 @@ Proof.
   rewrite forallb_forall in Hb. specialize (Hb _ (get_In _ _ _ G)). cbn [snd] in Hb.
   rewrite Hrep in Hb. cbn [orb] in Hb. now apply Z.eqb_eq.
 Qed.
+
+(* ------------------------------------------------------------------ *)
+(* statements over Reach, for Properties/C19.v *)
+
+Theorem Reach_hyps cfg s : wf_cfg cfg -> Reach cfg s ->
+  escrow_backed s /\ active_has_ctx s /\ fees_nonneg s /\ state_wf_exported s
+  /\ single_owner (export_genesis cfg s).
+Proof. intros Hcfg Hr. apply Inv_hyps. now apply Reach_Inv. Qed.
+
+Theorem restart_Inv_iff_reach cfg s s' h t :
+  wf_cfg cfg -> Reach cfg s -> prep_zero_height s = Some s' -> 1 <= h -> 0 <= t ->
+  (Inv cfg (restart cfg s' h t) <-> no_oneshot_inflight s).
+Proof. intros Hcfg Hr. apply restart_Inv_iff. now apply Reach_Inv. Qed.
+
+(* what the new chain starts with, in terms of the state the old chain stopped in *)
+Theorem restart_state cfg s s' h t :
+  wf_cfg cfg -> Reach cfg s -> prep_zero_height s = Some s' ->
+  let R := restart cfg s' h t in
+  height R = h /\ time R = t
+  /\ defs R = defs s /\ binds R = binds s /\ wdaddr R = wdaddr s
+  /\ ctxs R = map (fun kv => (fst kv, reset_ctx (snd kv))) (ctxs s)
+  /\ (forall k, get k (pricing R) = get k (pricing s))
+  /\ (forall e, In e (own_bind R) <-> In e (own_bind s))
+  /\ (forall o p, In (o, p) (own_prov R) <-> get p (owner_of R) = Some o)
+  /\ (forall p o, get p (owner_of R) = Some o
+        <-> exists svc b, get (svc, p) (binds s) = Some b /\ b_owner b = o)
+  /\ expq R = [] /\ newq R = [] /\ expq_h R = [] /\ newq_h R = []
+  /\ reqs R = [] /\ resps R = [] /\ vols R = [] /\ earned R = [] /\ own_earned R = []
+  /\ bal R Escrow = 0 /\ bal R Deposit = bal s Deposit /\ bal R FeeColl = bal s FeeColl
+  /\ (forall a, bal R (User a) = bal s (User a) + pending_of s a + earned_of s a)
+  /\ supply R = supply s
+  /\ (forall c, In (EvCtxCreated c) (log R) <-> has c (ctxs s) = true).
+Proof.
+  intros Hcfg Hr E R. pose proof (Reach_Inv _ _ Hcfg Hr) as HI.
+  pose proof (prep_wf _ _ (Inv_state_wf_exported _ _ HI) E) as Hwf'.
+  destruct (restart_fields cfg s' h t Hwf')
+    as (F1&F2&Hd&Hb&Hw&Hc&_&Q1&Q2&Q3&Q4&Q5&Q6&Q7&Q8&Q9&_&Hs&Hl).
+  fold R in F1, F2, Hd, Hb, Hw, Hc, Q1, Q2, Q3, Q4, Q5, Q6, Q7, Q8, Q9, Hs, Hl.
+  destruct (prep_frame _ _ E) as (Hd'&Hb'&_&_&_&_&Hw'&_).
+  destruct (C19_prep_contexts _ _ E) as (Hc' & Hg & _).
+  destruct (C19_prep_refunds _ _ E) as (Hu & Hdep & Hfc & Hsup).
+  destruct (restart_indexes_rebuilt cfg s s' h t HI E) as (Xp & Xb). fold R in Xp, Xb.
+  assert (Hso' : single_owner (export_genesis cfg s')).
+  { intros k1 b1 k2 b2 H1 H2. cbn [export_genesis g_binds] in H1, H2. rewrite Hb' in H1, H2.
+    exact (Inv_single_owner cfg cfg s HI k1 b1 k2 b2 H1 H2). }
+  destruct (restart_index cfg cfg s' h t Hwf' Hso') as ((_&X2&X3&_) & _). fold R in X2, X3.
+  split; [exact F1|]. split; [exact F2|]. split; [congruence|]. split; [congruence|].
+  split; [congruence|]. split; [congruence|]. split; [exact Xp|]. split; [exact Xb|].
+  split; [exact X3|]. split; [intros p o; rewrite X2, Hb, Hb'; reflexivity|].
+  split; [exact Q1|]. split; [exact Q3|]. split; [exact Q2|]. split; [exact Q4|].
+  split; [exact Q5|]. split; [exact Q6|]. split; [exact Q7|]. split; [exact Q8|]. split; [exact Q9|].
+  split; [exact (C19_prep_escrow_empty s s' (Inv_escrow_backed _ _ HI) (Inv_active_has_ctx _ _ HI) E)|].
+  split; [exact Hdep|]. split; [exact Hfc|]. split; [exact Hu|]. split; [congruence|].
+  intros c. rewrite Hl, In_created_log. unfold has.
+  split.
+  - intros Hin. apply in_keys_get in Hin as [rc' G]. rewrite Hg in G.
+    destruct (get c (ctxs s)); [reflexivity|discriminate].
+  - intros Hh. destruct (get c (ctxs s)) as [rc|] eqn:G; [|discriminate].
+    apply (get_Some_in c (reset_ctx rc)). rewrite Hg, G. reflexivity.
+Qed.
